@@ -88,6 +88,17 @@ async def no_leak():
     d0 = dict(st.labels)
     await st.kicker().with_labels(y=1).kiq()
     if dict(st.labels) != d0: problems.append(f"C09: shared task labels changed from {d0} to {dict(st.labels)}")
+    # every way of declaring a task carries its labels to the message that is sent
+    async def f1(): pass
+    async def f2(): pass
+    async def f3(): pass
+    async def f4(): pass
+    forms = {'@broker.task(task_name=..., **labels)': b.task(task_name='f1', form=1, flag=True)(f1), '@broker.task(**labels)': b.task(form=2, flag=True)(f2),
+             'broker.task(func, **labels)': b.task(f3, form=3, flag=True), 'broker.register_task(func, **labels)': b.register_task(f4, form=4, flag=True)}
+    for i, (form, tk) in enumerate(forms.items(), 1):
+        await tk.kiq()
+        got = {k: str(v) for k, v in sent[-1].labels.items() if k in ('form', 'flag')}          # the broker message carries the text form (the types travel in labels_types)
+        if got != {'form': str(i), 'flag': 'True'}: problems.append(f"C09: labels declared with {form} = {{'form': {i}, 'flag': True}} arrive in the sent message as {got}")
     return problems
 
 def run(sc):
